@@ -79,6 +79,37 @@ class Table:
         return None, None
 
 
+class EmptyTable:
+    """Stand-in when the translator fails closed: the direct oracles still run, tie K is skipped."""
+    empty = True
+    by_file, sites, unsafe, msg_sites = {}, [], [], []
+
+    def locate_record(self, *a):
+        return None, None
+
+    def locate_message(self, *a):
+        return None, None
+
+
+def selftest(ctx):
+    """The capture and the scanner must see a planted canary at INFO and must not see DEBUG."""
+    can = H.Canaries(12345)
+    c = can.new('selftest', 16)
+    with H.LogEnv() as cap:
+        lg = logging.getLogger('kmip.c20.selftest')
+        lg.debug('debug %s', c.hex())
+        lg.info('planted %s', base64.b64encode(c).decode())
+        try:
+            raise ValueError('inner ' + c.hex().upper())
+        except ValueError as e:
+            lg.exception(e)
+        recs = [H.record_dict(r, ctx.repo) for r in cap.raw]
+    forms = sorted({f for r in recs for _, f, _ in can.scan(r['all'])})
+    if len(recs) != 2 or 'base64' not in forms or 'hex' not in forms or 'Traceback' not in recs[1]['all']:
+        ctx.disagreement('harness-selftest', {'records': len(recs), 'forms': forms})
+    return len(recs) == 2
+
+
 def printable(s):
     return all(32 <= ord(c) < 127 for c in s)
 
@@ -152,6 +183,8 @@ def run_history(ctx, table, hist, struct_seed, can_seed, cases, meta, stats):
             ctx.violation(sig, wit, '%s canary (%s form) appears in %s at %s' % (kind, form, key[0], site))
             stats['canary_hits'] += 1
     # ---- tie K
+    if getattr(table, 'empty', False):
+        return w
     for r in w.records:
         stats['records'] += 1
         ctx.count('record.%s' % r['level'])
@@ -252,7 +285,12 @@ def run(ctx):
     load_own_findings(ctx)
     ok_t = ctx.regen(only=['logsites'])
     ctx.prove('props/C20.v')
-    table = Table(ctx.repo)
+    selftest(ctx)
+    try:
+        table = Table(ctx.repo)
+    except Exception as e:       # translator failed closed (already recorded by ctx.regen); oracles still run
+        ctx.notes.append('site table unavailable: %r' % e)
+        table = EmptyTable()
     if table.unsafe:
         ctx.notes.append('unsafe observable sites in the table: ' + '; '.join(
             '%s:%d %r' % (s['file'], s['line'], [p for p in s['parts'] if p[0] in ('SUnknown', 'SSecret')]) for s in table.unsafe[:10]))
